@@ -27,6 +27,9 @@ Definition lc_zero : lc := [].
 Definition lc_one : lc := [(0, 1)].
 Definition lc_var (v : var) : lc := [(v, 1)].
 
+(* keys of a Python dict are unique *)
+Definition wf (l : lc) : Prop := NoDup (map fst l).
+
 Definition eval (w : var -> Z) (l : lc) : Z := fold_right (fun vc acc => snd vc * w (fst vc) + acc) 0 l.
 
 (* expression trees over the class interface *)
